@@ -604,6 +604,50 @@ def o_C19(ctx):
             v.append(([c.id], "FindTransaction: %s" % first(t, "x_findwhy", "")))
         if first(t, "x_rb") == "panic":
             v.append(([c.id], "%s: panic while comparing with rust-bitcoin" % c.entry))
+    v.extend(find_violations(ctx))
+    return v
+
+
+def find_violations(ctx):
+    """FindTransaction judged against an independent decoding of the block (gen/ref.py + hashlib): the search must
+    return the FIRST transaction whose double SHA-256 of the witness-stripped serialization is the wanted id, stop
+    there with VisitBreak, and find nothing (and not break) when no transaction of the parsed part has that id."""
+    import hashlib
+    from gen import ref as R
+    v = []
+    for c in ctx.cases.get("find", []):
+        t = ctx.rust["find"].get(c.id, [])
+        f = c.raw.split(" ")
+        blk, want = unhex(f[2]), unhex(f[3])
+        res = res_of(t)
+        found = first(t, "found", "")
+        if res == ("panic",):
+            v.append(([c.id], "FindTransaction: panic"))
+            continue
+        # independent walk: transactions of the block in order, as far as they decode
+        exp_found = None
+        exp_res = None
+        try:
+            txs, status = R.block_transactions(blk)
+        except Exception as e:      # pragma: no cover
+            continue
+        for tb, stripped in txs:
+            if hashlib.sha256(hashlib.sha256(stripped).digest()).digest() == want:
+                exp_found = tb
+                break
+        if exp_found is not None:
+            if res != ("err", 5):
+                v.append(([c.id], "FindTransaction: the block contains a transaction with the wanted id but the visit did not stop with VisitBreak (%s)" % (res,)))
+            exp = "1," + ",".join(str(x) for x in exp_found)
+            if found != exp:
+                v.append(([c.id], "FindTransaction: tx_found() is not the first transaction with the wanted id"))
+        else:
+            if found != "0":
+                v.append(([c.id], "FindTransaction: a transaction was returned although none of the block's transactions has the wanted id"))
+            if res == ("err", 5):
+                v.append(([c.id], "FindTransaction: VisitBreak although no transaction has the wanted id"))
+            if status == "ok" and res != ("ok",):
+                v.append(([c.id], "FindTransaction: a valid block without the wanted id must be visited to the end (%s)" % (res,)))
     return v
 
 
